@@ -1,29 +1,29 @@
-\* quick: two read transactions and one writer interleaved at operation granularity
+\* a reader held across a commit that deletes / overwrites keys of a cache holding five user keys plus the write-cursor row (deleting inner nodes of the cache treap while an older version is still read); no flush
 INIT Init
 NEXT Next
 CONSTANTS
-  KeyOrder <- K1
-  ValSet <- V2
+  KeyOrder <- K5
+  ValSet <- V1
   NameOrder <- N0
   MaxDepth = 0
   BlockOrder <- B0
   RawLen <- MC_RawLen
   Limit = 186
   PruneTarget = 186
-  MaxTx = 2
-  MaxOps = 1
-  Readers <- R2
-  MaxReads = 2
+  MaxTx = 1
+  MaxOps = 3
+  Readers <- R1
+  MaxReads = 1
   MaxFaults = 0
   CrashMode = "none"
   PowerLoss = FALSE
   MaxCrash = 0
-  FlushModes <- FlushBoth
+  FlushModes <- FlushNever
   AllowRestart = FALSE
   MaxCur = 0
   PutPaths <- AllPaths
   CurSeeks = FALSE
-  BucketOps = TRUE
+  BucketOps = FALSE
   PreBuckets <- NoPaths
-  PreCache <- NoKeys
+  PreCache <- AllKeys
 INVARIANTS TypeOK Disjoint Atomicity Isolation PrefixDurability ReopenOK
